@@ -51,6 +51,38 @@ let anchors_ok (s : seqs) os oe ns ne (ops : op list) : bool =
   in
   kept >= best
 
+(* the same clause for large boxes, without the unary-number DP: occurrences by hash table, the longest in-order
+   chain of common unique items by patience sorting on their new-side positions (O(n log n)) *)
+let anchors_ok_big (s : seqs) os oe ns ne (ops : op list) : bool =
+  let oldv k = s.olda.(k - s.ko) and newv k = s.newa.(k - s.kn) in
+  let co = Hashtbl.create 1024 and cn = Hashtbl.create 1024 and posn = Hashtbl.create 1024 in
+  let bump h v = Hashtbl.replace h v (1 + try Hashtbl.find h v with Not_found -> 0) in
+  for k = os to oe - 1 do bump co (oldv k) done;
+  for k = ns to ne - 1 do bump cn (newv k); Hashtbl.replace posn (newv k) k done;
+  let once h v = (try Hashtbl.find h v with Not_found -> 0) = 1 in
+  (* common unique items in old order, as (old position, new position) *)
+  let pairs = ref [] in
+  for k = oe - 1 downto os do
+    let v = oldv k in
+    if once co v && once cn v then pairs := (k, Hashtbl.find posn v) :: !pairs
+  done;
+  (* longest strictly increasing subsequence of the new positions *)
+  let tails = Array.make (List.length !pairs + 1) 0 and len = ref 0 in
+  List.iter
+    (fun (_, j) ->
+      let lo = ref 0 and hi = ref !len in
+      while !lo < !hi do
+        let mid = (!lo + !hi) / 2 in
+        if tails.(mid) < j then lo := mid + 1 else hi := mid
+      done;
+      tails.(!lo) <- j;
+      if !lo = !len then incr len)
+    !pairs;
+  let matched = Hashtbl.create 1024 in
+  List.iter (function Equal (o, nn, l) -> for t = 0 to int_of_nat l - 1 do Hashtbl.replace matched (int_of_nat o + t, int_of_nat nn + t) () done | _ -> ()) ops;
+  let kept = List.length (List.filter (fun pr -> Hashtbl.mem matched pr) !pairs) in
+  kept >= !len
+
 (* C19: comparisons <= WORK_C * (N + M + 1) * (D + 1), D = size of the reported script *)
 (* the constants are the proved ones: c19_myers_work_bound (6), c19_patience_work_bound (12) *)
 let work_c alg = if alg = "P" then 12 else 6
@@ -104,7 +136,9 @@ let clauses_raw h (impl : string) : (string * bool) list =
                    let cost = int_of_nat (deleted ops) + int_of_nat (inserted ops) in
                    [ ("minimal_planted", cost <= (oe - os) + (ne - ns) - (2 * l0)) ]
                | _ -> [])
-            @ (if dlo = None && alg = "P" && small_box os oe ns ne then [ ("anchors_max", anchors_ok s os oe ns ne ops) ] else [])
+            @ (if dlo = None && alg = "P" && small_box os oe ns ne then [ ("anchors_max", anchors_ok s os oe ns ne ops) ]
+               else if dlo = None && alg = "P" then [ ("anchors_max", anchors_ok_big s os oe ns ne ops) ]
+               else [])
             @ (if dlo = None && stack = "none" && (alg = "M" || alg = "P") then
                  [ ("work_bound", work_ok alg ops os oe ns ne (int_of_string (get ih "cmps"))) ]
                else [])
